@@ -60,7 +60,16 @@ def casExpected (cas : List CaState) (ops : List Step) : List CaState :=
 
 def countOp (s : Step) (ops : List Step) : Nat := (ops.filter (· == s)).length
 
+/-- what the environment operations alone leave: the last one decides, validators run by default -/
+def envExpected (steps : List Step) : Bool :=
+  match (steps.filter (·.isEnv)).getLast? with
+  | some .validatorsOff => false
+  | _ => true
+
 def spec (c : Case) (o : Obs) : Bool :=
+  -- a definition neither reads nor writes the process environment: `alone` is defined with the switch in its
+  -- default state, `after` under whatever the history left, and only the history's own switch operations move it
+  o.runAfter == envExpected c.steps &&
   -- history independence
   o.after == o.alone && o.deepSame &&
   -- no effect on any other class definition; the outcome depends on body, bases and arguments only: every
